@@ -95,74 +95,76 @@ def finish(pid, tier, seed, t0, cov, assumptions, diffs, key_of_diff, known, des
 # ---------------------------------------------------------------------------
 # C07
 
-def run_c07(tier, seed, replay=None):
+def postiter_replay(replay):
     pid = "C07"
-    t0 = time.time()
-    q = tier == "quick"
     sc = Scratch()
     try:
         zx = build_harness(("verif",))
-        known = load_known()
-        if replay:
-            obj = json.load(open(replay))
-            w = obj["diff"]["walk"]
-            # re-run the single walk under every configuration
-            cfg = "PostIterQ.cfg" if len(w["calls"]) <= 3 and max(w["p"] + w["e"] + [0]) < 4 else "PostIter.cfg"
-            outp, st = tlc(sc, "PostIter", cfg=cfg, workers=8, timeout=1500, outname="pi.out")
-            split_printed(outp, sc, {"TABLES": ("tables.json", "one"), "BATCH": ("batches.ndjson", "lines")})
-            with open(sc.path("walks.ndjson"), "w") as fh:
-                fh.write(json.dumps(w) + "\n")
-            p = subprocess.run([zx, "postiter", "-in", sc.path("walks.ndjson"), "-tables", sc.path("tables.json"),
-                                "-batches", sc.path("batches.ndjson"), "-dir", sc.path("segs"), "-out", sc.path("diffs.ndjson")],
-                               stdout=subprocess.PIPE, stderr=subprocess.STDOUT, text=True)
-            diffs = read_diffs(sc.path("diffs.ndjson"))
-            log(p.stdout.strip())
-            if diffs:
-                log("replay: " + trunc(diffs[0], 800))
-                log("VIOLATION property=%s replay=%s" % (pid, replay))
-                return 1
-            log("replay: no violation of %s on the current tree" % pid)
-            return 0
-        cfg = "PostIterQ.cfg" if q else "PostIter.cfg"
-        outp, st = tlc(sc, "PostIter", cfg=cfg, workers=8, timeout=1800, outname="pi.out")
-        errs = tlc_errors(outp)
-        if errs:
-            raise Inconclusive("PostIter model: " + "; ".join(errs[:3]))
-        cnt = split_printed(outp, sc, {"WALK": ("walks.ndjson", "lines"), "TABLES": ("tables.json", "one"), "BATCH": ("batches.ndjson", "lines")})
-        os.remove(outp)
-        if cnt["WALK"] == 0 or cnt["TABLES"] != 1:
-            raise Inconclusive("PostIter model emitted no walks")
-        log("G: PostIter(%s): %d states, %d maximal walks, %d batches" % (cfg, st["distinct_states"], cnt["WALK"], cnt["BATCH"]))
-        args = [zx, "postiter", "-in", sc.path("walks.ndjson"), "-tables", sc.path("tables.json"), "-batches", sc.path("batches.ndjson"),
-                "-dir", sc.path("segs"), "-out", sc.path("diffs.ndjson"), "-seed", str(seed)]
-        if q:
-            args.append("-quick")
-        p = subprocess.run(args, stdout=subprocess.PIPE, stderr=subprocess.STDOUT, text=True, timeout=7200)
-        if p.returncode != 0:
-            raise Inconclusive("harness postiter failed: " + p.stdout[-1500:])
-        log("R: " + p.stdout.strip())
-        rs = kv(p.stdout)
-        if rs.get("runs", 0) == 0 or rs.get("onehit", 0) == 0 or rs.get("replace", 0) == 0:
-            raise Inconclusive("vacuous replay (no runs / no single-hit / no ReplaceActual class exercised)")
+        obj = json.load(open(replay))
+        w = obj["diff"]["walk"]
+        cfg = "PostIterQ.cfg" if len(w["calls"]) <= 3 and max(w["p"] + w["e"] + [0]) < 4 else "PostIter.cfg"
+        outp, st = tlc(sc, "PostIter", cfg=cfg, workers=8, timeout=1500, outname="pi.out")
+        split_printed(outp, sc, {"TABLES": ("tables.json", "one"), "BATCH": ("batches.ndjson", "lines")})
+        with open(sc.path("walks.ndjson"), "w") as fh:
+            fh.write(json.dumps(w) + "\n")
+        p = subprocess.run([zx, "postiter", "-in", sc.path("walks.ndjson"), "-tables", sc.path("tables.json"),
+                            "-batches", sc.path("batches.ndjson"), "-dir", sc.path("segs"), "-out", sc.path("diffs.ndjson")],
+                           stdout=subprocess.PIPE, stderr=subprocess.STDOUT, text=True)
         diffs = read_diffs(sc.path("diffs.ndjson"))
-        with open(sc.path("walks.ndjson")) as fh:
-            samples = [json.loads(fh.readline()) for _ in range(2)]
-        cov = {"family": "postiter", "states": st["distinct_states"], "transitions": st["states_generated"],
-               "traces_validated_against_impl": rs["runs"], "samples": samples,
-               "model": {"module": "PostIter.tla", "cfg": cfg, "invariants": ["IterSound", "NextOnlyComplete"], "wall_s": st["wall_s"]},
-               "walks": cnt["WALK"], "iterator_runs": rs["runs"], "single_hit_runs": rs["onehit"], "replace_actual_runs": rs["replace"],
-               "configurations": "every walk x {mem, mmap, merged} x chunk modes {1,2,3,1025} x {rich f/t, plain g/s} x detail flags x {except, replace, reuse, reuse-other, emptybm}",
-               "evaluations": rs["runs"], "distinct_nontrivial": cnt["WALK"],
-               "rule": "one evaluation = one call sequence executed on one real iterator configuration; distinct = distinct (P, E, call sequence)",
-               "exhaustive": True}
-        assumptions = ["Advance targets obey the interface contract (strictly beyond the last returned document)",
-                       "ReplaceActual is applied only to iterators that expose an actual bitmap (not to single-hit iterators) and before the first call",
-                       "expected hits are ZapData's PostingsOf evaluated by TLC on the emitted batch"]
-        return finish(pid, tier, seed, t0, cov, assumptions, diffs,
-                      lambda d: "postiter/%s" % d["what"].split(" ")[0], known,
-                      lambda d: {k: d[k] for k in ("walk", "kind", "mode", "target", "flags", "variant", "what", "got", "want")})
+        log(p.stdout.strip())
+        if diffs:
+            log("replay: " + trunc(diffs[0], 800))
+            log("VIOLATION property=%s replay=%s" % (pid, replay))
+            return 1
+        log("replay: no violation of %s on the current tree" % pid)
+        return 0
     finally:
         sc.close()
+
+
+def postiter_stage(zx, sc, tier, seed, known):
+    """C07 component stage: PostIter walks replayed on real iterators (the lifecycle stage follows)."""
+    pid = "C07"
+    q = tier == "quick"
+    cfg = "PostIterQ.cfg" if q else "PostIter.cfg"
+    outp, st = tlc(sc, "PostIter", cfg=cfg, workers=8, timeout=1800, outname="pi.out")
+    errs = tlc_errors(outp)
+    if errs:
+        raise Inconclusive("PostIter model: " + "; ".join(errs[:3]))
+    cnt = split_printed(outp, sc, {"WALK": ("piwalks.ndjson", "lines"), "TABLES": ("pitables.json", "one"), "BATCH": ("pibatches.ndjson", "lines")})
+    os.remove(outp)
+    if cnt["WALK"] == 0 or cnt["TABLES"] != 1:
+        raise Inconclusive("PostIter model emitted no walks")
+    log("G: PostIter(%s): %d states, %d maximal walks, %d batches" % (cfg, st["distinct_states"], cnt["WALK"], cnt["BATCH"]))
+    args = [zx, "postiter", "-in", sc.path("piwalks.ndjson"), "-tables", sc.path("pitables.json"), "-batches", sc.path("pibatches.ndjson"),
+            "-dir", sc.path("pisegs"), "-out", sc.path("pidiffs.ndjson"), "-seed", str(seed)]
+    if q:
+        args.append("-quick")
+    p = subprocess.run(args, stdout=subprocess.PIPE, stderr=subprocess.STDOUT, text=True, timeout=7200)
+    if p.returncode != 0:
+        raise Inconclusive("harness postiter failed: " + p.stdout[-1500:])
+    log("R: " + p.stdout.strip())
+    rs = kv(p.stdout)
+    if rs.get("runs", 0) == 0 or rs.get("onehit", 0) == 0 or rs.get("replace", 0) == 0:
+        raise Inconclusive("vacuous replay (no runs / no single-hit / no ReplaceActual class exercised)")
+    diffs = read_diffs(sc.path("pidiffs.ndjson"))
+    paths, seen = [], set()
+    for d in diffs:
+        key = "postiter/%s" % d["what"].split(" ")[0]
+        if key in seen or len(paths) >= 3:
+            continue
+        seen.add(key)
+        log("mismatch %s: %s" % (key, trunc({k: d[k] for k in ("walk", "kind", "mode", "target", "flags", "variant", "what", "got", "want")}, 600)))
+        paths.append(save_replay(pid, seed, 100 + len(paths), {"property": pid, "key": key, "family": "postiter", "diff": d}))
+    with open(sc.path("piwalks.ndjson")) as fh:
+        samples = [json.loads(fh.readline()) for _ in range(2)]
+    cov = {"family": "postiter", "states": st["distinct_states"], "transitions": st["states_generated"],
+           "traces_validated_against_impl": rs["runs"], "samples": samples,
+           "model": {"module": "PostIter.tla", "cfg": cfg, "invariants": ["IterSound", "NextOnlyComplete"], "wall_s": st["wall_s"]},
+           "walks": cnt["WALK"], "iterator_runs": rs["runs"], "single_hit_runs": rs["onehit"], "replace_actual_runs": rs["replace"],
+           "configurations": "every walk x {mem, mmap, merged} x chunk modes {1,2,3,1025} x {rich f/t, plain g/s} x detail flags x {except, replace, reuse, reuse-other, emptybm}",
+           "exhaustive": True}
+    return {"cov": cov, "paths": paths}
 
 
 # ---------------------------------------------------------------------------
